@@ -21,23 +21,25 @@ func AfterChan(d time.Duration) <-chan time.Time {
 
 // Timer replaces time.Timer.
 type Timer struct {
-	hb byte // address for the arm -> fire happens-before edge under -race
-	C  <-chan time.Time
-	ev Event
-	f  bool
+	hb   byte // address for the arm -> fire happens-before edge under -race
+	C    <-chan time.Time
+	ev   Event
+	f    bool
+	fire func() // what the timer does when it expires
 }
 
 //go:norace
 func NewTimer(d time.Duration) *Timer {
 	ch := make(chan time.Time, 1)
 	t := &Timer{C: ch}
-	t.ev = After(d, func() {
+	t.fire = func() {
 		t.f = true
 		select {
 		case ch <- NowNoTick():
 		default:
 		}
-	})
+	}
+	t.ev = After(d, t.fire)
 	return t
 }
 
@@ -50,13 +52,14 @@ func AfterFunc(d time.Duration, f func()) *Timer {
 	// (as with a real timer): the edge is lost otherwise, because the function is
 	// started from the scheduler's goroutine
 	RaceReleaseMerge(unsafePointer(&t.hb))
-	t.ev = After(d, func() {
+	t.fire = func() {
 		t.f = true
 		S.spawn("afterfunc", "repo", func() {
 			RaceAcquire(unsafePointer(&t.hb))
 			f()
 		})
-	})
+	}
+	t.ev = After(d, t.fire)
 	return t
 }
 
@@ -68,6 +71,18 @@ func (t *Timer) Stop() bool {
 	t.ev.Cancel()
 	t.f = true
 	return true
+}
+
+// Reset re-arms the timer (as time.Timer.Reset: reports whether it was active).
+//
+//go:norace
+func (t *Timer) Reset(d time.Duration) bool {
+	active := !t.f
+	t.ev.Cancel()
+	t.f = false
+	RaceReleaseMerge(unsafePointer(&t.hb))
+	t.ev = After(d, t.fire)
+	return active
 }
 
 // Ticker replaces time.Ticker: firings are events on the virtual clock; a
